@@ -10,8 +10,10 @@
 (*   regs  : register -> decimal (a representation)                        *)
 (*   ghost : register -> the exact value, computed on normal forms only    *)
 (*   steps : number of operations executed                                 *)
+(* Rounding steps (to a scale, to a precision) are interleaved with the    *)
+(* exact ones: their result, too, is a function of the value alone.        *)
 (***************************************************************************)
-EXTENDS Wide, TLC
+EXTENDS Wide, Rounding, TLC
 
 CONSTANTS NREG,        \* number of registers
           POOL,        \* set of decimals the registers may be loaded with
@@ -50,11 +52,19 @@ Normalize(dst, a) == Store(dst, Norm(regs[a]), ghost[a])
 AddInt(dst, a, k) == Store(dst, DAdd(regs[a], DOfInt(k)), DAdd(ghost[a], DOfInt(k)))
 MulInt(dst, a, k) == Store(dst, DMul(regs[a], DOfInt(k)), DMul(ghost[a], DOfInt(k)))
 
+\* rounding steps between the exact ones: the rounded value must not depend on how its operand happens to be
+\* represented (2.5, 2.50 and 25e-1 round alike) - the ghost rounds the normal form, the register whatever it holds
+RoundModes == {"HalfEven", "Up", "Floor", "HalfDown"}
+RoundScale(dst, a, t, m) == Store(dst, RoundToScale(regs[a], t, m), RoundToScale(ghost[a], t, m))
+RoundPrec(dst, a, p, m) == /\ ghost[a].d # <<>>           \* (a zero keeps its scale: its precision rounding is about representation only)
+                           /\ Store(dst, RoundToPrec(regs[a], p, m), RoundToPrec(ghost[a], p, m))
+
 Next == \E dst, a, b \in Reg :
            \/ Add(dst, a, b) \/ Sub(dst, a, b) \/ Mul(dst, a, b)
            \/ Neg(dst, a) \/ Abs(dst, a) \/ Double(dst, a) \/ Half(dst, a) \/ Square(dst, a)
            \/ RescaleUp(dst, a) \/ Normalize(dst, a)
            \/ \E k \in {-2, 0, 1, 10} : AddInt(dst, a, k) \/ MulInt(dst, a, k)
+           \/ \E m \in RoundModes : (\E t \in {-1, 0, 1} : RoundScale(dst, a, t, m)) \/ (\E p \in {1, 2} : RoundPrec(dst, a, p, m))
 Spec == Init /\ [][Next]_vars
 
 \* ---- invariants: the value of every register is the exact value, whatever representations were taken
